@@ -4,6 +4,7 @@ INVARIANT EditFailsIff
 INVARIANT KeepKeepsConfiguration
 INVARIANT AppendedKeyIsShown
 INVARIANT CommentedLineIsInert
+INVARIANT DroppedKey
 INVARIANT EditedTreeReadable
 INVARIANT RevertRemovesDropins
 INVARIANT RevertedShow
